@@ -6,7 +6,7 @@ from ..model import rs_str
 class RoundTripUnit(Unit):
     rule = ('the EnumString corpus (non-overlapping spellings, no prefix; every naming mix, case-insensitivity, serialize_all styles, disabled/default '
             'variants) with Display + AsRefStr + IntoStaticStr + EnumMessage derived as well; one harness per (in-scope variant, printer), payload symbolic '
-            '(quick: 12 programs; thorough: 122)')
+            '(quick: 26 programs; thorough: + 110 systematic + 150 random)')
     kani_always = True
     assumptions = (
         'decided by Kani/CBMC on the real derive output and the real std string code: print and parse run back to back, no rewriting, no contract of C01/C03 is used',
